@@ -1,7 +1,7 @@
 (* Property C09 - zip: the k-th output is the row of k-th items; ends with the shortest input. *)
 From Coq Require Import List Arith Bool.
 Import ListNotations.
-Require Import ScanFull InstsFull ObligMZ C11Groups C09Zip Monitors C02Join C02Merge C02Zip.
+Require Import ScanFull InstsFull ObligMZ C11Groups C08Merge C09Zip Monitors C02Join C02Merge C02Zip Counting LiveZip.
 
 (* [Tz n s t] (Proofs/C09Zip.v): while no input has ended (Zl): no End answer so far, results = rows, every row has n entries, and for
    every input i the items it has answered are column i of the rows followed by at most one buffered item;
@@ -33,3 +33,27 @@ Theorem C09_rows_predicate_holds selective scs ops :
   dropped _ w = false -> zip_b (length scs) (strip (tr _ w)) = true.
 Proof. exact (zip_b_holds selective scs ops). Qed.
 Print Assumptions C09_rows_predicate_holds.
+
+(* ---- the zipped stream ends.  After ANY history of a zip of n >= 1 inputs whose scripts never panic and reach their End, while it has not been
+        dropped and has not ended: the wake-driven executor of C01 has been handed None within (k + 1) * B rounds, k the number of items input 0 has
+        still scripted (plus one if its item for the current row is already buffered), B any bound on the remaining script lengths; the world
+        reached is a history of the model, so C09_zip_rows says what was returned before the None: the rows, in order.  (Proofs/LiveZip.v:
+        zip_ends - items of input 0 + its buffered item + rows returned is invariant along every history.) *)
+Theorem C09_zip_ends_under_wake_driven_executor scs ops B :
+  (forall i, i < length scs -> ended (nth i scs []) = true) -> (forall m st, In st (nth m scs []) -> answer st <> APanic) -> 0 < length scs ->
+  let rnd := rounds zst z_n z_awaited (fun _ i => i) z_handle false true z_order (fun _ => None) (fun _ => false) z_finish (fun s => s)
+               z_drop m_final (@no_mut zst) in
+  let w := zip_world true scs ops in
+  finished _ w = false -> dropped _ w = false -> (forall j, length (nth j (scripts _ w) []) <= B) -> 1 <= B ->
+  exists R, R <= (nitems (nth 0 (scripts _ w) []) + buf0 (cs _ w) + 1) * B /\ let w' := rnd R w in
+    dropped _ w' = false /\ In (EEndR ONone) (tr _ w') /\ exists ops', w' = zip_world true scs ops'.
+Proof. intros He Hp Hn rnd w Hf Hd HB HB1. exact (zip_ends scs He Hp Hn B HB1 (nitems (nth 0 (scripts _ w) []) + buf0 (cs _ w)) ops Hf Hd (le_n _) HB). Qed.
+Print Assumptions C09_zip_ends_under_wake_driven_executor.
+Example C09_ends_witness :
+  let P := {| fires := []; answer := APend |} in let I v := {| fires := []; answer := AItem v |} in let E := {| fires := []; answer := AEnd |} in
+  let scs := [[P; I 1; I 2; E]; [I 5; P; I 6; I 7; E]] in
+  let rnd := rounds zst z_n z_awaited (fun _ i => i) z_handle false true z_order (fun _ => None) (fun _ => false) z_finish (fun s => s)
+               z_drop m_final (@no_mut zst) in
+  let w := zip_world true scs [] in
+  nitems (nth 0 (scripts _ w) []) = 2 /\ map (fun k => results (strip (tr _ (rnd k w)))) [2; 4; 5] = [[OSome None [1; 5]]; [OSome None [1; 5]; OSome None [2; 6]]; [OSome None [1; 5]; OSome None [2; 6]; ONone]].
+Proof. vm_compute. split; reflexivity. Qed.
